@@ -1,0 +1,23 @@
+//go:build verif
+
+package signing
+
+// Contracts for the deductive checker in /verif (comment-only; compiled only under the verif tag).
+
+// Randomness provenance (C07): the primary's nonce share k1 and the opening of the commitment to (R1, proof) are draws
+// from the primary cosigner's own reader during round 1; R1 = [k1]G for exactly that k1.
+//@ func (*PrimaryCosigner).Round1
+//@   property C07
+//@   uses reader
+//@   ensures err == nil ==> ownDraw(box(pc.state.k1), old(shk(pc.prng)), shk(pc.prng))
+//@   ensures err == nil ==> pc.state.bigR1 == pc.suite.Curve().ScalarBaseMul(pc.state.k1)
+//@   ensures err == nil ==> ownDraw(box(pc.state.bigR1Opening), old(shk(pc.prng)), shk(pc.prng))
+//@   ensures pc.prng == old(pc.prng)
+
+// The secondary's nonce share k2 is a draw from the secondary cosigner's own reader during round 2; R2 = [k2]G.
+//@ func (*SecondaryCosigner).Round2
+//@   property C07
+//@   uses reader
+//@   ensures err == nil ==> ownDraw(box(sc.state.k2), old(shk(sc.prng)), shk(sc.prng))
+//@   ensures err == nil ==> sc.state.bigR2 == sc.suite.Curve().ScalarBaseMul(sc.state.k2) && r2out.BigR2 == sc.state.bigR2
+//@   ensures sc.prng == old(sc.prng)
